@@ -1,5 +1,5 @@
 """C04 — X.509 validation accepts exactly when the rules are met: static necessary conditions (DESIGN §4 C04)."""
-from .. import build, report, oblig, irf, fold, t0, t0ai, t0rules, wmw
+from .. import build, report, oblig, irf, fold, t0, t0ai, t0rules, wmw, tab
 from ..oblig import Ob, Call, ICall, Var, FieldLoad, RET, RET_NONZERO, ALL, NOCALL, E
 from ..build import AnalysisBroken
 
@@ -457,6 +457,54 @@ def calendar_table(chk):
     chk.floor('date readers', n, 2)
 
 
+def oid_table(chk):
+    """The certificate engines recognise algorithms, key types, curves, name attributes and extensions by comparing DER object
+    identifiers with constants of the bytecode data block.  One wrong byte there and an extension silently stops being recognised
+    (basicConstraints / keyUsage then no longer constrain a non-CA certificate; an unknown critical extension is refused) or an
+    algorithm is taken for another.  TAB: the length-prefixed DER encoding of every identifier the engine documents, generated from the
+    arcs assigned in RFC 5280 / 3279 / 5480 / 5758 / 4055, must be present in the data block and its address must be used by the
+    code."""
+    R = 'x509-oid-table'
+    COMMON = {
+        'rsaEncryption': [1, 2, 840, 113549, 1, 1, 1], 'sha1WithRSAEncryption': [1, 2, 840, 113549, 1, 1, 5],
+        'sha224WithRSAEncryption': [1, 2, 840, 113549, 1, 1, 14], 'sha256WithRSAEncryption': [1, 2, 840, 113549, 1, 1, 11],
+        'sha384WithRSAEncryption': [1, 2, 840, 113549, 1, 1, 12], 'sha512WithRSAEncryption': [1, 2, 840, 113549, 1, 1, 13],
+        'id-ecPublicKey': [1, 2, 840, 10045, 2, 1], 'ansix9p256r1': [1, 2, 840, 10045, 3, 1, 7], 'ansix9p384r1': [1, 3, 132, 0, 34],
+        'ansix9p521r1': [1, 3, 132, 0, 35], 'ecdsa-with-SHA1': [1, 2, 840, 10045, 4, 1], 'ecdsa-with-SHA224': [1, 2, 840, 10045, 4, 3, 1],
+        'ecdsa-with-SHA256': [1, 2, 840, 10045, 4, 3, 2], 'ecdsa-with-SHA384': [1, 2, 840, 10045, 4, 3, 3], 'ecdsa-with-SHA512': [1, 2, 840, 10045, 4, 3, 4],
+    }
+    MIN = dict(COMMON)
+    MIN.update({'id-at-commonName': [2, 5, 4, 3], 'basicConstraints': [2, 5, 29, 19], 'keyUsage': [2, 5, 29, 15], 'subjectAltName': [2, 5, 29, 17],
+                'certificatePolicies': [2, 5, 29, 32], 'id-qt-cps': [1, 3, 6, 1, 5, 5, 7, 2, 1], 'authorityKeyIdentifier': [2, 5, 29, 35],
+                'subjectKeyIdentifier': [2, 5, 29, 14], 'issuerAltName': [2, 5, 29, 18], 'subjectDirectoryAttributes': [2, 5, 29, 9],
+                'crlDistributionPoints': [2, 5, 29, 31], 'freshestCRL': [2, 5, 29, 46], 'authorityInfoAccess': [1, 3, 6, 1, 5, 5, 7, 1, 1],
+                'subjectInfoAccess': [1, 3, 6, 1, 5, 5, 7, 1, 11]})
+    DEC = {k: v for k, v in COMMON.items() if k in ('rsaEncryption', 'id-ecPublicKey', 'ansix9p256r1', 'ansix9p384r1', 'ansix9p521r1')}
+    DEC.update({'basicConstraints': [2, 5, 29, 19]})
+    n = 0
+    for key, table in (('x509_minimal', MIN), ('x509_decoder', DEC)):
+        P = t0.Program(key)
+        consts = set()
+        for W in P.words.values():
+            for i in W.ins.values():
+                if i.kind == 'const':
+                    consts.add(i.arg)
+        for name, arcs in sorted(table.items()):
+            der = tab.oid_der(arcs)
+            blob = [len(der)] + der
+            pos = [k for k in range(len(P.data) - len(blob) + 1) if P.data[k:k + len(blob)] == blob]
+            n += 1
+            inst = '%s: OID %s (%s) is in the data block and referenced' % (key, name, '.'.join(map(str, arcs)))
+            if not pos:
+                chk.violation(R, inst, P.src, 'the length-prefixed DER encoding %s does not occur in the data block: the identifier is no longer recognised'
+                              % ' '.join('%02X' % b for b in blob), key='%s %s %s' % (R, key, name))
+            elif not any(k in consts for k in pos):
+                chk.violation(R, inst, P.src, 'present at data offset %s but no instruction pushes that address' % pos, key='%s %s %s unref' % (R, key, name))
+            else:
+                chk.ok(R, inst, P.src)
+    chk.floor('object identifiers', n, 30)
+
+
 def err_writers(chk):
     """C stores to err: validation success (BR_ERR_X509_OK) is written only by the two trust natives"""
     u = build.load_unit(S)
@@ -506,6 +554,7 @@ def run(tier):
     key_usage_masks(chk)
     name_compare_vectors(chk)
     calendar_table(chk)
+    oid_table(chk)
     from . import c11 as _c11
     oblig.run_obligations(chk, _c11.asn1_sig_obligations())
     _c11.decode_mod_covers_source(chk)
